@@ -131,3 +131,6 @@ def restart(run, P):
 def blkmore(run, P):
     from rules import r_blkmore
     r_blkmore.run(run, P)
+def nullbelief(run, P):
+    from rules import r_nullbelief
+    r_nullbelief.run(run, P)
